@@ -180,6 +180,16 @@ func runsFor(prop, tier string) []run {
 			}(), pick(26, 30), minutes(pickf(1.2, 8))},
 			{"rebuild-killed-at-every-gate-then-retried", mk(withData, []string{"RB", "Step", "Kill", "MonFail", "W0"}, 3, 1, 0, 4), pick(30, 60), minutes(pickf(1.0, 10))},
 		}
+	case "C11rest":
+		mk := func(init []string) eb.Cfg {
+			return eb.Cfg{RF: 2, N: 2, Alphabet: []string{"W0", "Snap", "DelSnap", "MonFail", "MonWake", "ERR", "Remove", "RB", "Step"}, Oracles: []string{"c11", "c18"}, Drain: false, Real: true,
+				MaxWrites: 2, MaxSnaps: 3, MaxAdds: 3, MaxFaults: 2, InitOps: init}
+		}
+		full := append(append([]string{}, rw2...), "W:0", "Snap:0", "W:0", "Snap:0")
+		return []run{
+			{"rf2-from-2rw-two-user-snapshots", mk(full), pick(4, 5), minutes(pickf(1.0, 6))},
+			{"rf2-from-2rw", mk(rw2), pick(4, 6), minutes(pickf(0.6, 5))},
+		}
 	case "C19":
 		src2 := []string{"Reg:0", "Start:0", "W:0", "Snap:0", "W:0", "Snap:0", "W:0"}
 		src1 := []string{"Reg:0", "Start:0", "W:0", "W:0", "Snap:0"}
@@ -279,6 +289,11 @@ func main() {
 }
 
 func check(prop string) int {
+	evName := ""
+	realProp := prop
+	if prop == "C11rest" {
+		realProp, evName = "C11", "C11-rest.part"
+	}
 	tier := kernel.Tier()
 	runs := runsFor(prop, tier)
 	if runs == nil {
@@ -290,7 +305,7 @@ func check(prop string) int {
 	start := time.Now()
 	var last *kernel.BFS
 	for _, r := range runs {
-		b := &kernel.BFS{Property: prop, Engine: "E-B/" + r.name, Cfg: r.cfg, MaxDepth: r.depth, Budget: r.budget, Workers: 16, WorkerArgs: []string{"worker"}, WorkerEnv: []string{"GOMAXPROCS=2"}}
+		b := &kernel.BFS{Property: realProp, EvidenceName: evName, Engine: "E-B/" + r.name, Cfg: r.cfg, MaxDepth: r.depth, Budget: r.budget, Workers: 16, WorkerArgs: []string{"worker"}, WorkerEnv: []string{"GOMAXPROCS=2"}}
 		if !r.cfg.Real && os.Getenv("VERIF_NO_CONFORMANCE") == "" {
 			rc := r.cfg
 			rc.Real = true
